@@ -33,7 +33,7 @@ CONSTANTS
     PrintShapes,  \* sequence of PRINT statements
     KnownStrings, \* memoisation only: strings / patterns whose order and matches are tabulated once at start-up
     KnownPats,    \*   (any other argument is computed directly by the same operators)
-    Variant       \* "shipped" | "no_where" | "order_by_name" | "balance_raw" | "no_sortkey_group" | "print_keeps_null" | "journal_no_match"
+    Variant       \* "shipped" | "no_where" | "order_by_name" | "balance_raw" | "print_keeps_null" | "journal_no_match"
 
 \* TLC evaluates a constant that the configuration overrides by a definition at EVERY reference; the aliases
 \* below are ordinary constant-level definitions, which TLC evaluates once at start-up
@@ -230,7 +230,7 @@ ExpandBalances(s) ==
     [targets |-> <<Col("account"), Fn("sum", <<WrapF(s.f, Col("position"))>>)>>,
      from |-> s.from,
      where |-> IF Variant = "no_where" THEN TrueE ELSE s.where,
-     group |-> IF Variant = "no_sortkey_group" THEN <<SortKeyE>> ELSE <<Col("account"), SortKeyE>>,
+     group |-> <<Col("account"), SortKeyE>>,
      order |-> IF Variant = "order_by_name" THEN <<Col("account")>> ELSE <<SortKeyE>>]
 ExpandJournal(s) ==
     [targets |-> <<Col("date"), Col("flag"), Fn("maxwidth", <<Col("payee"), IntLit(48)>>),
